@@ -39,6 +39,7 @@ GHOST_STARTERS = [
     ["decreases"], ["proof", "{"], ["assert"], ["let", "ghost"], ["let", "tracked"],
     ["reveal"], ["reveal_with_fuel"], ["broadcast", "use"], ["#", "[", "verifier"],
     ["returns"], ["no_unwind"], ["opens_invariants"],
+    ["spec", "fn"],     # a spec-function member added to an extracted trait (no executable content)
 ]
 FORBIDDEN_GHOST = {"assume", "admit"}
 
